@@ -652,6 +652,10 @@ class ExcludeRegionState(object):  # pylint: disable=too-many-instance-attribute
         if (isDebug):
             startPosition = Position(self.position)
 
+        # Where the tool physically is before this move (needed if the move enters a region)
+        wasExcluding = self.excluding
+        priorPosition = None if (wasExcluding) else Position(self.position)
+
         eAxis = self.position.E_AXIS
         priorE = eAxis.current
         if (extruderPosition is not None):
@@ -698,6 +702,10 @@ class ExcludeRegionState(object):  # pylint: disable=too-many-instance-attribute
             returnCommands = self._processNonMove(cmd, deltaE)
         elif (self.isAnyPointExcluded(*xyPairs)):
             returnCommands = self._processExcludedMove(cmd, deltaE)
+            if (self.excluding and not wasExcluding):
+                # The entering move itself is not executed, so the position to compare against
+                # when exiting is the one held before it
+                self.lastPosition = priorPosition
         elif (self.excluding):
             # Moving from an excluded region into a non-excluded region.
             # Processes the necessary commands to move the tool to the new position specified by the
